@@ -984,6 +984,11 @@ Proof.
       * rewrite in_app_iff. intros [H|H]; auto. apply (A3 x); auto.
       * apply IH. repeat split; auto.
 Qed.
+Lemma nodup_map_some {A} (l : list A) : NoDup l -> NoDup (map (fun i => Some i) l).
+Proof.
+  induction 1; simpl; constructor; auto.
+  intros Hx. apply in_map_iff in Hx. destruct Hx as [y [E Hy]]. inversion E; subst. auto.
+Qed.
 Lemma rids_app a b : rids (a ++ b) = rids a ++ rids b.
 Proof. unfold rids. apply map_app. Qed.
 Lemma rids_in i F rs : In (i, F) rs -> In i (rids rs).
@@ -1026,3 +1031,334 @@ Qed.
 Lemma numbered_kids chk i0 lo hi ks rs : numbered chk i0 lo hi ks rs ->
   map kid ks = map (fun i => Some i) (rids rs).
 Proof. induction 1; simpl; auto. unfold kid at 1. cbn [snd]. rewrite H0, IHnumbered. reflexivity. Qed.
+
+(* ------------------------------------------------------------------ resolving a region of the document *)
+Lemma qok_defined chk Q rs e : Qok chk Q rs e -> forall j, In j (rids rs) -> lookup e j <> None.
+Proof.
+  intros [Qc Qr _] j Hj. unfold rids in Hj. apply in_map_iff in Hj. destruct Hj as [[j' F] [E Hin]].
+  simpl in E. subst j'. destruct (Qr j F Hin) as [f [k [Hk Ek]]].
+  destruct (Qc f k Hk) as [i' [F' [A [B [C D]]]]]. rewrite Ek in A. inversion A; subst. congruence.
+Qed.
+
+Lemma resolve_step chk R d D rs e g k Q' i F A B ra rb :
+  D = A ++ TOpen i :: F ++ TClose i :: B -> wfd A ra -> wfd B rb -> rs = ra ++ (i, F) :: rb ->
+  plain F ->
+  NoDup (rids rs) -> antichain (rids rs) -> (forall j, In j (rids rs) -> j <> []) ->
+  Qok chk ((g, k) :: Q') rs e -> o_id k = Some i ->
+  (chk = true -> fill e None D = R) ->
+  exists t ks rsn e',
+    oid (res_oclo k d) = i
+    /\ concat (rev (sync_payloads (ochunks (res_oclo k d)))) = t
+    /\ non_sync (ochunks (res_oclo k d)) = cof ks
+    /\ wfd t rsn
+    /\ (forall j, In j (rids rsn) -> exists x, j = i ++ [x])
+    /\ (oreplace (res_oclo k d) = false -> t = [] /\ ks = [] /\ rsn = [])
+    /\ let X := if oreplace (res_oclo k d) then t else F in
+       wfd (A ++ X ++ B) (ra ++ rsn ++ rb)
+       /\ NoDup (rids (ra ++ rsn ++ rb)) /\ antichain (rids (ra ++ rsn ++ rb))
+       /\ (forall j, In j (rids (ra ++ rsn ++ rb)) -> j <> [])
+       /\ Qok chk (ks ++ Q') (ra ++ rsn ++ rb) e'
+       /\ (chk = true -> fill e' None (A ++ X ++ B) = R).
+Proof.
+  intros ED WA WB Ers PF Nd Ac Ne Qk Ek Fl.
+  assert (In (i, F) rs) as Hin by (subst rs; apply in_app_iff; right; left; reflexivity).
+  assert (i <> []) as Hni by (apply Ne; eapply rids_in; eauto).
+  destruct Qk as [Qc Qr Qn].
+  destruct (Qc g k (or_introl eq_refl)) as [i' [F' [E1 [E2 [Ok Lk]]]]].
+  rewrite Ek in E1. inversion E1; subst i'. clear E1.
+  assert (F' = F) by (eapply rs_functional; eauto). subst F'.
+  destruct (res_oclo_spec chk d k i Ek Hni Ok) as [t [ks [rsn [hi [S1 [S2 [S3 [S4 [S5 [S6 [S7 S8]]]]]]]]]]].
+  assert (i ++ [0%N] <> []) as Hn0 by (destruct i; discriminate).
+  assert (forall j, In j (rids rsn) -> exists x, j = i ++ [x]) as Hnew.
+  { intros j Hj. destruct (numbered_ids _ _ _ _ _ _ S6 j Hj) as [m [_ Em]]. subst j.
+    rewrite child_id. eauto. }
+  (* facts about the old index *)
+  rewrite Ers in Nd. rewrite rids_app in Nd. cbn [rids map fst] in Nd.
+  apply nodup_app_iff in Nd. destruct Nd as [Nda [Ndb' Ndab]].
+  apply NoDup_cons_iff in Ndb'. destruct Ndb' as [Hib Ndb]. fold (rids rb) in Hib, Ndb.
+  assert (~ In i (rids ra)) as Hia by (intros H; apply (Ndab i H); left; reflexivity).
+  assert (forall j, In j (rids ra) \/ In j (rids rb) -> In j (rids rs) /\ j <> i) as Hold.
+  { intros j Hj. rewrite Ers, rids_app, in_app_iff. cbn [rids map fst In]. split; [tauto|].
+    intro; subst j. destruct Hj; contradiction. }
+  assert (forall j, In j (rids rsn) -> ~ In j (rids ra) /\ ~ In j (rids rb)) as Hfresh.
+  { intros j Hj. destruct (Hnew j Hj) as [x Ex]. subst j.
+    split; intros H; (apply (Ac i (i ++ [x])); [eapply rids_in; eauto| |apply sprefix_snoc]);
+      apply (proj1 (Hold (i ++ [x]) ltac:(auto))). }
+  assert (NoDup (rids rsn)) as Ndn by (eapply numbered_nodup; eauto).
+  exists t, ks, rsn, (env_of ks rsn ++ e).
+  split; [exact S1|]. split; [exact S2|]. split; [exact S3|]. split; [exact S5|].
+  split; [exact Hnew|].
+  split. { rewrite S4. destruct (o_view k); [discriminate|]. intros _. apply S7. reflexivity. }
+  cbv zeta.
+  assert (wfd (if oreplace (res_oclo k d) then t else F) rsn) as WX.
+  { rewrite S4. destruct (o_view k) eqn:Ev; [exact S5|].
+    destruct (S7 eq_refl) as [_ [_ Z]]. subst rsn. apply wfd_plain; auto. }
+  split. { apply wfd_app; [auto|apply wfd_app; auto]. }
+  split.
+  { rewrite !rids_app. apply nodup_app_iff. split; [auto|split].
+    - apply nodup_app_iff. split; [auto|split; [auto|]]. intros x Hx.
+      destruct (Hfresh x Hx); auto.
+    - intros x Hx Hx'. apply in_app_iff in Hx'. destruct Hx' as [Hx'|Hx'].
+      + destruct (Hfresh x Hx'); contradiction.
+      + apply (Ndab x Hx). right. exact Hx'. }
+  split.
+  { apply (antichain_replace (rids rs) i (rids rsn)); auto.
+    - eapply rids_in; eauto.
+    - intros j Hj. rewrite !rids_app, !in_app_iff in Hj.
+      destruct Hj as [Hj|[Hj|Hj]]; auto; left; apply Hold; auto. }
+  split.
+  { intros j Hj. rewrite !rids_app, !in_app_iff in Hj. destruct Hj as [Hj|[Hj|Hj]].
+    - apply Ne. apply Hold; auto.
+    - destruct (Hnew j Hj) as [x Ex]. subst j. destruct i; discriminate.
+    - apply Ne. apply Hold; auto. }
+  assert (forall j, In j (rids ra) \/ In j (rids rb) -> lookup (env_of ks rsn ++ e) j = lookup e j) as Lold.
+  { intros j Hj. rewrite lookup_app.
+    rewrite (env_of_lookup_none _ _ _ _ _ _ S6); auto.
+    intros Hn. destruct (Hfresh j Hn). destruct Hj; contradiction. }
+  split.
+  { constructor.
+    - intros f0 k0 Hin0. apply in_app_iff in Hin0. destruct Hin0 as [Hin0|Hin0].
+      + destruct (numbered_clo _ _ _ _ _ _ Hn0 S6 f0 k0 Hin0) as [m [F0 [_ [B1 [B2 [B3 B4]]]]]].
+        exists (bump m (i ++ [0%N])), F0. split; [auto|split; [|split; [auto|]]].
+        * apply in_app_iff. right. apply in_app_iff. left. exact B2.
+        * rewrite lookup_app, B4. reflexivity.
+      + destruct (Qc f0 k0 (or_intror Hin0)) as [j [F0 [B1 [B2 [B3 B4]]]]].
+        assert (j <> i) as Hji.
+        { intro; subst j. cbn [map] in Qn. inversion Qn as [|? ? Hk _]; subst. apply Hk.
+          apply in_map_iff. exists (f0, k0). split; [|auto]. unfold kid. cbn [snd]. congruence. }
+        subst rs. apply in_app_iff in B2. cbn [In] in B2.
+        assert (In (j, F0) ra \/ In (j, F0) rb) as B2'.
+        { destruct B2 as [B2|[B2|B2]]; auto. inversion B2. congruence. }
+        exists j, F0. split; [auto|split; [|split; [auto|]]].
+        * rewrite !in_app_iff. tauto.
+        * rewrite Lold; auto. destruct B2'; [left|right]; eapply rids_in; eauto.
+    - intros j F0 Hj. rewrite !in_app_iff in Hj. destruct Hj as [Hj|[Hj|Hj]].
+      + destruct (Qr j F0) as [f0 [k0 [C1 C2]]]; [subst rs; apply in_app_iff; auto|].
+        destruct C1 as [C1|C1].
+        * inversion C1; subst. rewrite Ek in C2. inversion C2; subst. exfalso. apply Hia.
+          eapply rids_in; eauto.
+        * exists f0, k0. split; [apply in_app_iff; auto|auto].
+      + destruct (numbered_reg _ _ _ _ _ _ S6 j F0 Hj) as [f0 [k0 [C1 C2]]].
+        exists f0, k0. split; [apply in_app_iff; auto|auto].
+      + destruct (Qr j F0) as [f0 [k0 [C1 C2]]]; [subst rs; apply in_app_iff; right; right; auto|].
+        destruct C1 as [C1|C1].
+        * inversion C1; subst. rewrite Ek in C2. inversion C2; subst. exfalso. apply Hib.
+          eapply rids_in; eauto.
+        * exists f0, k0. split; [apply in_app_iff; auto|auto].
+    - rewrite map_app. apply nodup_app_iff. split; [|split].
+      + rewrite (numbered_kids _ _ _ _ _ _ S6). apply nodup_map_some; auto.
+      + cbn [map] in Qn. inversion Qn; auto.
+      + intros x Hx Hx'. rewrite (numbered_kids _ _ _ _ _ _ S6) in Hx.
+        apply in_map_iff in Hx. destruct Hx as [j [Ej Hj]]. subst x.
+        apply in_map_iff in Hx'. destruct Hx' as [[f0 k0] [E0 H0]]. unfold kid in E0. cbn [snd] in E0.
+        destruct (Qc f0 k0 (or_intror H0)) as [j' [F0 [B1 [B2 _]]]].
+        rewrite E0 in B1. inversion B1; subst j'.
+        destruct (Hnew j Hj) as [x Ex]. subst j.
+        apply (Ac i (i ++ [x])); [eapply rids_in; eauto|eapply rids_in; eauto|apply sprefix_snoc]. }
+  intros C. specialize (Fl C). specialize (S8 C).
+  assert (forall j, In j (rids rs) -> lookup e j <> None) as Ldef.
+  { apply (qok_defined chk ((g, k) :: Q') rs e). constructor; auto. }
+  rewrite ED in Fl.
+  rewrite (fill_wfd_app e A ra WA) in Fl
+    by (intros j Hj; apply Ldef; apply Hold; auto).
+  rewrite (fill_region e i F (fin k F) B Lk PF) in Fl.
+  rewrite (fill_wfd_app _ A ra WA)
+    by (intros j Hj; rewrite Lold by auto; apply Ldef; apply Hold; auto).
+  rewrite (fill_ext _ e A ra WA)
+    by (intros j Hj; split; [apply Lold; auto|rewrite Lold by auto; apply Ldef; apply Hold; auto]).
+  assert (fill (env_of ks rsn ++ e) None B = fill e None B) as FB.
+  { apply (fill_ext _ e B rb WB). intros j Hj.
+    split; [apply Lold; auto|rewrite Lold by auto; apply Ldef; apply Hold; auto]. }
+  rewrite <- Fl. f_equal.
+  rewrite S4. destruct (o_view k) as [c|] eqn:Ev.
+  - rewrite (fill_wfd_app _ t rsn S5).
+    + rewrite FB. f_equal. unfold fin. rewrite Ev. rewrite <- (S8 c eq_refl).
+      apply (fill_ext _ _ t rsn S5). intros j Hj. rewrite lookup_app.
+      pose proof (env_of_lookup _ _ _ _ _ _ S6 j Hj) as L.
+      destruct (lookup (env_of ks rsn) j); [split; [reflexivity|discriminate]|congruence].
+    + intros j Hj. rewrite lookup_app. pose proof (env_of_lookup _ _ _ _ _ _ S6 j Hj) as L.
+      destruct (lookup (env_of ks rsn) j); [discriminate|congruence].
+  - rewrite (fill_wfd_app _ F [] (wfd_plain _ PF)) by (intros j []).
+    rewrite (fill_plain _ _ PF), FB. unfold fin. rewrite Ev. reflexivity.
+Qed.
+
+(* ------------------------------------------------------------------ the invariant is preserved by poll_next *)
+From Coq Require Import Permutation.
+
+Lemma qok_perm chk Q Q' rs e : Permutation Q Q' -> Qok chk Q rs e -> Qok chk Q' rs e.
+Proof.
+  intros P [Qc Qr Qn]. constructor.
+  - intros f k H. apply (Qc f k). eapply Permutation_in; [apply Permutation_sym; exact P|exact H].
+  - intros i F H. destruct (Qr i F H) as [f [k [A B]]]. exists f, k. split; auto.
+    eapply Permutation_in; eauto.
+  - eapply Permutation_NoDup; [apply Permutation_map; exact P|exact Qn].
+Qed.
+
+Lemma find_idx_some_in {T} (p : T -> bool) l n : find_idx p l = Some n -> exists x, In x l /\ p x = true.
+Proof.
+  revert n. induction l as [|y l IH]; intros n H; simpl in H; [discriminate|].
+  destruct (p y) eqn:E.
+  - exists y. split; [left; auto|auto].
+  - destruct (find_idx p l) as [m|] eqn:Em; [|discriminate].
+    destruct (IH m eq_refl) as [x [H1 H2]]. exists x. split; [right; auto|auto].
+Qed.
+
+Notation ostep := (step1 clo oclo res_clo res_oclo).
+Notation oret := (ret1 clo oclo res_oclo).
+
+Section Preserve.
+Variable chk : bool.
+Variable R : html.
+Notation Inv := (OInv chk R).
+
+(** the common part of the splice and template moves: the closure at the head of pending_ooo
+    has its region in the document *)
+Lemma head_region E b g k rest D rs e :
+  pending_ooo b = (g, k) :: rest -> chunks b = [] ->
+  wfd D rs -> NoDup (rids rs) -> Qok chk (Qb b) rs e ->
+  exists i F A B ra rb,
+    o_id k = Some i /\ D = A ++ TOpen i :: F ++ TClose i :: B /\ wfd A ra /\ wfd B rb
+    /\ rs = ra ++ (i, F) :: rb /\ ~ In i (rids ra) /\ ~ In i (rids rb) /\ plain F
+    /\ Qok chk ((g, k) :: rest) rs e.
+Proof.
+  intros Ho Hc W Nd Qk. unfold Qb in Qk. rewrite Hc, Ho in Qk. cbn [ooo_of flat_map app] in Qk.
+  destruct (q_clo _ _ _ _ Qk g k (or_introl eq_refl)) as [i [F [A1 [A2 _]]]].
+  destruct (wfd_split D rs W i F A2 Nd) as [A [B [ra [rb [X1 [X2 [X3 [X4 [X5 [X6 X7]]]]]]]]]].
+  exists i, F, A, B, ra, rb. repeat split; auto; apply Qk.
+Qed.
+
+Lemma oinv_step d E b b' : ostep d b b' -> Inv E b -> Inv E b'.
+Proof.
+  intros S [Hp [Hca [D [rs [e [Hrun [W [Nd [Ac [Ne [Qk [Fl Mode]]]]]]]]]]]].
+  destruct S.
+  - (* ready: impossible *) rewrite Hp in Hp0. discriminate.
+  - (* sync *)
+    destruct Mode as [[EE [ED [l [tail [Sc St]]]]]|[Ns _]].
+    2:{ unfold nosync in Ns. rewrite Hc in Ns. discriminate. }
+    rewrite Hc in Sc. destruct l as [|[f0 k0] l]; [|discriminate]. cbn [cof map app] in Sc.
+    destruct St as [St|[s [St Sb]]]; [subst tail; discriminate|]. subst tail.
+    inversion Sc; subst s rest. rewrite Sb in Hco. cbn [app coalesce] in Hco.
+    inversion Hco; subst buf rest' po. clear Hco Sc.
+    split; [exact Hp|]. split; [constructor|].
+    assert (Tb (set_pooo (set_chunks (set_sync b v) []) (pending_ooo b)) = Tb b) as ET.
+    { unfold Tb. sbg. rewrite Hc, Sb. cbn. rewrite !app_nil_r. reflexivity. }
+    assert (Qb (set_pooo (set_chunks (set_sync b v) []) (pending_ooo b)) = Qb b) as EQ.
+    { unfold Qb. sbg. rewrite Hc. reflexivity. }
+    exists D, rs, e. rewrite ET, EQ. repeat split; auto.
+    left. split; [auto|split; [auto|]]. exists [], []. sbg. split; [reflexivity|left; reflexivity].
+  - (* async: impossible *)
+    rewrite Hc in Hca. inversion Hca as [|? ? X _]; subst. contradiction.
+  - (* an out-of-order chunk moves to pending_ooo *)
+    split; [exact Hp|]. split; [rewrite Hc in Hca; inversion Hca; auto|].
+    assert (Tb (set_chunks (set_pooo b (pending_ooo b ++ [(g, k)])) rest) = Tb b) as ET.
+    { unfold Tb. sbg. rewrite Hc. reflexivity. }
+    exists D, rs, e. rewrite ET. split; [exact Hrun|]. repeat split; auto.
+    + eapply qok_perm; [|exact Qk]. unfold Qb. sbg. rewrite Hc. cbn [ooo_of flat_map app].
+      fold (ooo_of rest). rewrite app_assoc. apply Permutation_cons_append.
+    + destruct Mode as [[EE [ED [l [tail [Sc St]]]]]|[Ns Ht]].
+      * left. split; [auto|split; [rewrite ET; auto|]].
+        rewrite Hc in Sc. destruct l as [|[f0 k0] l].
+        -- cbn [cof map app] in Sc. destruct St as [St|[s [St Sb]]]; subst tail; discriminate.
+        -- cbn [cof map app] in Sc. inversion Sc. exists l, tail. sbg. split; [auto|exact St].
+      * right. sbg. split.
+        -- unfold nosync in *. rewrite Hc in Ns. exact Ns.
+        -- intros f0 k0 i0 Hin Eo t Ht'. rewrite Hs in Ht'. contradiction.
+  - (* splice in place *)
+    destruct (head_region E b g k rest D rs e Ho Hc W Nd Qk)
+      as [i [F [A [B [ra [rb [Ei [ED [WA [WB [Ers [Nia [Nib [PF Qk']]]]]]]]]]]]]].
+    destruct (resolve_step chk R d D rs e g k rest i F A B ra rb ED WA WB Ers PF Nd Ac Ne Qk' Ei Fl)
+      as [t [ks [rsn [e' [S1 [S2 [S3 [S4 [S5 [S6 S7]]]]]]]]]].
+    cbv zeta in S7. destruct S7 as [T1 [T2 [T3 [T4 [T5 T6]]]]].
+    rewrite S1 in Hfo, Hfc.
+    (* mode A: the marker is in the buffer *)
+    destruct Mode as [[EE [EDT Sh]]|[Ns Ht]].
+    2:{ exfalso. destruct (find_idx_some_in _ _ _ Hfo) as [x [Hx Px]].
+        rewrite (Ht g k i (or_introl eq_refl) Ei x) in Px; [discriminate|].
+        rewrite Ho. exact Hx. }
+    assert (Tb b = sync_buf b) as ETb by (unfold Tb; rewrite Hc; cbn; apply app_nil_r).
+    rewrite ETb in EDT. rewrite <- EDT, ED in Hfo, Hfc.
+    destruct (region_found A ra B rb i F B WA Nia PF) as [F1 [F2 _]].
+    rewrite F1 in Hfo. rewrite F2 in Hfc. inversion Hfo; subst start. inversion Hfc; subst e0.
+    clear Hfo Hfc.
+    assert (firstn (length A) (sync_buf b) = A) as X1
+      by (rewrite <- EDT, ED; apply firstn_app_exact).
+    assert (skipn (S (length A + S (length F))) (sync_buf b) = B) as X2.
+    { rewrite <- EDT, ED.
+      replace (A ++ TOpen i :: F ++ TClose i :: B) with ((A ++ TOpen i :: F ++ [TClose i]) ++ B)
+        by (rewrite <- !app_assoc; simpl; rewrite <- app_assoc; reflexivity).
+      replace (S (length A + S (length F))) with (length (A ++ TOpen i :: F ++ [TClose i]))
+        by (rewrite !app_length; simpl; rewrite app_length; simpl; lia).
+      apply skipn_app_exact. }
+    assert (firstn (length A + S (length F) - S (length A)) (skipn (S (length A)) (sync_buf b)) = F) as X3.
+    { rewrite <- EDT, ED.
+      replace (A ++ TOpen i :: F ++ TClose i :: B) with ((A ++ [TOpen i]) ++ F ++ TClose i :: B)
+        by (rewrite <- app_assoc; reflexivity).
+      replace (S (length A)) with (length (A ++ [TOpen i])) by (rewrite app_length; simpl; lia).
+      rewrite skipn_app_exact.
+      replace (length A + S (length F) - length (A ++ [TOpen i])) with (length F)
+        by (rewrite app_length; simpl; lia).
+      apply firstn_app_exact. }
+    rewrite X1, X2, X3, S2, S3, app_nil_r, cof_rev.
+    set (X := if oreplace (res_oclo k d) then t else F) in *.
+    assert ((if oreplace (res_oclo k d) then [] else F) ++ t = X) as EX.
+    { unfold X. destruct (oreplace (res_oclo k d)) eqn:Er; [reflexivity|].
+      destruct (S6 eq_refl) as [Z _]. subst t. apply app_nil_r. }
+    rewrite app_assoc, EX.
+    set (b1 := set_chunks (set_sync (set_pooo b rest) (A ++ X ++ B)) (cof (rev ks))).
+    assert (Tb b1 = A ++ X ++ B) as ET1
+      by (unfold Tb, b1; sbg; rewrite payloads_cof; cbn; apply app_nil_r).
+    split; [exact Hp|]. split; [apply nocasync_cof|].
+    exists (A ++ X ++ B), (ra ++ rsn ++ rb), e'. rewrite ET1, EE. cbn [app].
+    split; [apply as_run_notpl; eapply wfd_notpl; eauto|].
+    split; [exact T1|split; [exact T2|split; [exact T3|split; [exact T4|split; [|split; [exact T6|]]]]]].
+    + eapply qok_perm; [|exact T5]. unfold Qb, b1. sbg. rewrite ooo_of_cof.
+      apply Permutation_app_tail. apply Permutation_rev.
+    + left. split; [reflexivity|split; [reflexivity|]]. exists (rev ks), []. unfold b1. sbg.
+      split; [rewrite app_nil_r; reflexivity|left; reflexivity].
+  - (* template + script *)
+    destruct (head_region E b g k rest D rs e Ho Hc W Nd Qk)
+      as [i [F [A [B [ra [rb [Ei [ED [WA [WB [Ers [Nia [Nib [PF Qk']]]]]]]]]]]]]].
+    destruct (resolve_step chk R d D rs e g k rest i F A B ra rb ED WA WB Ers PF Nd Ac Ne Qk' Ei Fl)
+      as [t [ks [rsn [e' [S1 [S2 [S3 [S4 [S5 [S6 S7]]]]]]]]]].
+    cbv zeta in S7. destruct S7 as [T1 [T2 [T3 [T4 [T5 T6]]]]].
+    rewrite S1 in *.
+    assert (Tb b = sync_buf b) as ETb by (unfold Tb; rewrite Hc; cbn; apply app_nil_r).
+    destruct Mode as [[EE [EDT Sh]]|[Ns Ht]].
+    { (* mode A is impossible: the marker would have been found *)
+      exfalso. rewrite ETb in EDT. rewrite <- EDT, ED in Hfo.
+      destruct (region_found A ra B rb i F B WA Nia PF) as [F1 _]. congruence. }
+    rewrite S2, S3, app_nil_r.
+    set (b1 := set_chunks (set_sync (set_pooo b rest)
+                  (sync_buf b ++ [TTplS i] ++ t ++ [TTplE i (oreplace (res_oclo k d))])) (cof ks)).
+    assert (Tb b1 = sync_buf b ++ TTplS i :: t ++ [TTplE i (oreplace (res_oclo k d))]) as ET1
+      by (unfold Tb, b1; sbg; rewrite payloads_cof; cbn; apply app_nil_r).
+    split; [exact Hp|]. split; [apply nocasync_cof|].
+    set (X := if oreplace (res_oclo k d) then t else F) in *.
+    exists (A ++ X ++ B), (ra ++ rsn ++ rb), e'. rewrite ET1.
+    split.
+    { rewrite ETb in Hrun. rewrite app_assoc, as_run_app, Hrun.
+      rewrite as_run_block by (eapply wfd_notpl; eauto).
+      rewrite ED, (apply_ooo_region A ra B rb i F t _ WA WB Nia Nib PF). reflexivity. }
+    split; [exact T1|split; [exact T2|split; [exact T3|split; [exact T4|split; [|split; [exact T6|]]]]]].
+    + unfold Qb, b1. sbg. rewrite ooo_of_cof. exact T5.
+    + right. unfold b1. sbg. split; [apply payloads_cof|].
+      intros f0 k0 i0 Hin Eo x Hx. rewrite !in_app_iff in Hx. cbn [In] in Hx.
+      destruct Hx as [Hx|[Hx|[Hx|[Hx|[]]]]].
+      * apply (Ht f0 k0 i0); auto. rewrite Ho. right. exact Hin.
+      * subst x. reflexivity.
+      * (* a marker inside the template content belongs to a new closure *)
+        destruct (is_open i0 x) eqn:Eo'; [|reflexivity]. exfalso.
+        destruct x; simpl in Eo'; try discriminate. apply list_N_eqb_eq in Eo'. subst i1.
+        (* i0 is the id of an old closure: it is in rs, different from i; new ids are fresh *)
+        destruct (q_clo _ _ _ _ Qk' f0 k0 (or_intror Hin)) as [j [F0 [B1 [B2 _]]]].
+        rewrite Eo in B1. inversion B1; subst j.
+        assert (~ In i0 (rids rsn)) as Nn.
+        { intros Hn. destruct (S5 i0 Hn) as [y Ey]. subst i0.
+          apply (Ac i (i ++ [y])); [subst rs; rewrite rids_app, in_app_iff; right; left; reflexivity
+                                   |eapply rids_in; eauto|apply sprefix_snoc]. }
+        pose proof (wfd_no_open t rsn i0 S4 Nn (TOpen i0) Hx) as Z. simpl in Z.
+        rewrite list_N_eqb_refl in Z. discriminate.
+      * subst x. reflexivity.
+Qed.
+
+End Preserve.
